@@ -1,6 +1,7 @@
 package taskprops
 
 import (
+	"bytes"
 	"encoding/json"
 	"flag"
 	"fmt"
@@ -9,6 +10,7 @@ import (
 	"math"
 	"os"
 	"os/exec"
+	"strings"
 	"sync"
 
 	"github.com/mandykoh/prism"
@@ -231,16 +233,23 @@ func execOp(o opSpec) uint64 {
 		cs := props.Corpus()
 		var small []props.CorpusFile
 		for _, c := range cs {
-			if len(c.Data) < 20000 {
+			// C's top bit: only files that carry an ICC profile (loaders handing
+			// out profile bytes are where shared buffers would hide)
+			if len(c.Data) < 20000 && (o.C>>31 == 0 || strings.Contains(c.Name, "icc") || containsICC(c.Data)) {
 				small = append(small, c)
 			}
 		}
 		f := small[int(o.B)%len(small)]
 		l := props.Loaders[o.A%4]
-		src := simio.NewSource(simio.Bytes(f.Data), simio.Config{TruncAt: -1, ErrAt: -1, Policy: simio.Fixed, K: 1 + int(o.C%5000)})
+		src := simio.NewSource(simio.Bytes(f.Data), simio.Config{TruncAt: -1, ErrAt: -1, Policy: simio.Fixed, K: 1 + int(o.C&0x7FFFFFFF%5000)})
 		res := props.SafeLoad(l, src)
 		v := props.View(res)
 		h := tape.HashString(fmt.Sprintf("%v|%s|%d|%d|%d|%d|%v|%s", v.OK, v.Format, v.W, v.H, v.Bits, v.ICCLen, v.ICCNil, v.ICCErr))
+		if res.MD != nil {
+			if d, _ := res.MD.ICCProfileData(); d != nil {
+				h = hashBytes(h, d) // the returned bytes themselves are part of the value
+			}
+		}
 		if res.Panic != nil {
 			h ^= 0xDEAD
 		}
@@ -262,9 +271,14 @@ type trialSpec struct {
 	Phases [2]phaseSpec
 }
 
+func containsICC(b []byte) bool {
+	return bytes.Contains(b, []byte("iCCP")) || bytes.Contains(b, []byte("ICC_PROFILE")) || bytes.Contains(b, []byte("ICCP"))
+}
+
 func drawPhase(t *tape.Tape, firstUse bool) phaseSpec {
 	var p phaseSpec
 	n := [...]int{2, 3, 4, 8}[t.Pick(4, 3, 2, 1)]
+	metaOnly := !firstUse && t.Chance(1, 4) // every task loads ICC-carrying files: hunts state shared between loads
 	p.Table = -1
 	sharers := 0
 	if firstUse {
@@ -279,7 +293,18 @@ func drawPhase(t *tape.Tape, firstUse bool) phaseSpec {
 			if j == 0 && i < sharers {
 				force = p.Table
 			}
-			ops = append(ops, drawOp(t, force))
+			o := drawOp(t, force)
+			if metaOnly {
+				o.Kind = opLoad
+				o.C |= 1 << 31
+				o.A = o.A&^3 | uint32(t.Pick(1, 0, 0, 1))*3 // pngmeta or autometa
+				if t.Chance(1, 4) {
+					o.A = t.U32()
+				}
+			} else {
+				o.C &^= 1 << 31
+			}
+			ops = append(ops, o)
 		}
 		p.Tasks = append(p.Tasks, ops)
 	}
@@ -358,11 +383,34 @@ func runPhase(p phaseSpec) phaseResult {
 	if !res.Deadlock {
 		for i := range p.Tasks {
 			for j, o := range p.Tasks[i] {
-				pr.Post[i][j] = execOp(o)
+				pr.Post[i][j] = evalAlone(o)
 			}
+		}
+		if n := simrt.RaceErrors() - before - pr.Races; n > 0 {
+			pr.Races += n
+			pr.RaceText += trimText(NewRaceText(), 6000)
 		}
 	}
 	return pr
+}
+
+// evalAlone executes one operation as the only caller, still under the
+// simulator (one task, serial schedule), so that library-spawned workers are
+// scheduled deterministically even when the value is the reference.
+func evalAlone(o opSpec) (v uint64) {
+	sc := &simrt.Schedule{Kind: simrt.SerialPerm, MaxSteps: 2000000}
+	res := simrt.Run(sc, func() {
+		defer func() {
+			if r := recover(); r != nil {
+				v = 0xBADBADBAD
+			}
+		}()
+		v = execOp(o)
+	})
+	if res.Deadlock {
+		return 0xDEADDEAD
+	}
+	return v
 }
 
 // runTrialChild is the body of `tasksim trial`: a fresh process that replays the
@@ -406,7 +454,7 @@ func (c11) Run(t *tape.Tape, st *Stats) *Violation {
 		for _, ops := range tr.Phases[ph].Tasks {
 			var row []uint64
 			for _, o := range ops {
-				row = append(row, execOp(o))
+				row = append(row, evalAlone(o))
 			}
 			solo[ph] = append(solo[ph], row)
 		}
